@@ -10,6 +10,7 @@ pub mod c07;
 pub mod c08;
 pub mod c09;
 pub mod c10;
+pub mod c12;
 pub mod c13;
 pub mod c15;
 pub mod c16;
@@ -27,6 +28,7 @@ pub fn lanes_of(id: &str) -> Vec<(&'static str, LaneFn)> {
         "C08" => vec![("generated", c08::generated), ("exhaustive", c08::exhaustive), ("mutated", c08::mutated), ("rejection", c08::rejection_classes)],
         "C09" => vec![("exhaustive_short", c09::exhaustive_short), ("exhaustive_meta", c09::exhaustive_meta), ("random", c09::random)],
         "C10" => vec![("streams", c10::streams), ("search_collect", c10::search_collect)],
+        "C12" => vec![("timeouts", c12::timeouts)],
         "C13" => vec![("histories", c13::histories), ("long_histories", c13::long_histories)],
         "C15" => vec![("random", c15::random), ("patterns", c15::patterns)],
         "C16" => vec![("paging", c16::paging)],
@@ -62,6 +64,7 @@ pub fn replay(ctx: &Ctx, id: &str, v: &Value) -> Value {
         "C08" => c08::replay(ctx, v),
         "C09" => c09::replay(ctx, v),
         "C10" => c10::replay(ctx, v),
+        "C12" => c12::replay(ctx, v),
         "C13" => c13::replay(ctx, v),
         "C15" => c15::replay(ctx, v),
         "C16" => c16::replay(ctx, v),
